@@ -39,8 +39,11 @@ def plan(tier, seed):
 
 
 def rand_interval(rng):
-    kind = rng.choice(['log', 'decimal', 'dyadic'])
-    if kind == 'log':
+    kind = rng.choice(['log', 'decimal', 'dyadic', 'log', 'decimal', 'dyadic', 'unit'])
+    if kind == 'unit':   # translated copies of the reference interval (and [0,1] itself): shortcuts on h == 1 must still look at a
+        h = 1.0
+        a = float(rng.choice([0, 2, -1, 5, -3, 1]))
+    elif kind == 'log':
         h = 10**rng.uniform(-3, 3)
         a = rng.uniform(-2, 2) * h
     elif kind == 'decimal':
